@@ -5,7 +5,7 @@ T = ['io', 'matrix', 'vector', 'memwrapper', 'numeric', 'algebra', 'tensor', 'li
 META = dict(
     functions=['WritePCA', 'ReadPCA', 'WriteCPCA', 'ReadCPCA', 'WritePLS', 'ReadPLS', 'serialize_matrix', 'deserialize_matrix', 'serialize_tensor', 'deserialize_tensor',
                'serialize_dvectorlist', 'deserialize_dvectorlist', 'write_vector_into_sqltable', 'read_vector', 'OpenDB', 'DropAllTables', 'CloseDB'],
-    bounds='write/read histories of length 2..5 over 1..2 paths, mixing PCA (4 shapes incl. the empty model), CPCA (3 shapes) and PLS (3 shapes: empty, calibration-only with empty validation fields, everything filled) models; every stored number symbolic (finite, 0 or 1e-9 <= |v| <= 1e9); matrices up to 3x2, tensors up to order 2, at most 40 rows per table',
+    bounds='write/read histories of length 2..5 over 1..2 paths, mixing PCA (4 shapes incl. the empty model), CPCA (4 shapes) and PLS (3 shapes: empty, calibration-only with empty validation fields, everything filled) models; every stored number symbolic (finite, 0 or 1e-9 <= |v| <= 1e9); matrices up to 3x2, tensors up to order 2, at most 40 rows per table',
     outside='the decimal text round trip of a number (snprintf "%.18f" and SQLite\'s literal parser are libc/SQLite internals: the model carries the formatted double to the INSERT, so the 1e-15 accuracy clause is only exercised by native replays), SQLite itself (replaced by the contract in stubs/sym_sqlite.c: tables per path persisting across open/close, rowid order, CREATE IF NOT EXISTS / INSERT / SELECT / DROP / DELETE semantics, SELECT never modifies), file-system failures, concurrent writers, reading a kind of model that was never written to the path, reading into a model that is not freshly created, SQL text the model does not know (reported as inconclusive)',
     stubs=['sqlite3_open/close/exec/prepare_v2/step/bind_double/column_double/column_text/finalize/errmsg/free: contract model of the statements io.c issues, recognised from the concrete statement text',
            'snprintf: %s copied, a floating conversion becomes a placeholder and its double is carried to the INSERT that receives the buffer', 'printf/fprintf: CBMC built-in no-op models'],
@@ -42,11 +42,11 @@ def R(k, p=0): return ('R', k, p)
 def obligations(tier):
     obs = []
     # single write/read (the only history the repository's test samples), every kind and shape
-    for k, shapes in ((PCA, (0, 1, 2, 3)), (CPCA, (0, 1, 2)), (PLS, (0, 1, 2))):
+    for k, shapes in ((PCA, (0, 1, 2, 3)), (CPCA, (0, 1, 2, 3)), (PLS, (0, 1, 2))):
         for s in shapes:
             obs.append(hist(f'{KN[k]}{s}>read', [W(k, s), R(k)], tier))
     # overwrite with a model of a different size, same kind
-    for k, pairs in ((PCA, ((1, 2), (3, 1), (2, 0), (0, 3), (2, 2))), (CPCA, ((1, 2), (2, 1), (2, 0))), (PLS, ((1, 2), (2, 1), (2, 0)))):
+    for k, pairs in ((PCA, ((1, 2), (3, 1), (2, 0), (0, 3), (2, 2))), (CPCA, ((1, 2), (2, 1), (2, 0), (3, 2), (1, 3))), (PLS, ((1, 2), (2, 1), (2, 0)))):
         for a, b in pairs:
             obs.append(hist(f'{KN[k]}{a}>{KN[k]}{b}>read', [W(k, a), W(k, b), R(k)], tier))
     # a different kind written earlier to the same path; two paths interleaved
@@ -57,7 +57,7 @@ def obligations(tier):
     obs.append(hist('pca1@A>pca2@B>pca3@A>readB>readA', [W(PCA, 1, 0), W(PCA, 2, 1), W(PCA, 3, 0), R(PCA, 1), R(PCA, 0)], tier))
     obs.append(hist('pca2>read>pca1>read', [W(PCA, 2), R(PCA), W(PCA, 1), R(PCA)], tier))
     for name, steps in (('pca3>read', [W(PCA, 3), R(PCA)]), ('cpca2>read', [W(CPCA, 2), R(CPCA)]), ('pls2>read', [W(PLS, 2), R(PLS)]),
-                        ('pca3>pca1>read', [W(PCA, 3), W(PCA, 1), R(PCA)]), ('pls2>pls1>read', [W(PLS, 2), W(PLS, 1), R(PLS)]), ('cpca2>cpca1>read', [W(CPCA, 2), W(CPCA, 1), R(CPCA)]),
+                        ('pca3>pca1>read', [W(PCA, 3), W(PCA, 1), R(PCA)]), ('pls2>pls1>read', [W(PLS, 2), W(PLS, 1), R(PLS)]), ('cpca2>cpca1>read', [W(CPCA, 2), W(CPCA, 1), R(CPCA)]), ('cpca3>read', [W(CPCA, 3), R(CPCA)]),
                         ('pls1>pca2>read', [W(PLS, 1), W(PCA, 2), R(PCA)]), ('pca2>read>pca1>read', [W(PCA, 2), R(PCA), W(PCA, 1), R(PCA)]),
                         ('pca1@A>pca2@B>pca3@A>readB>readA', [W(PCA, 1, 0), W(PCA, 2, 1), W(PCA, 3, 0), R(PCA, 1), R(PCA, 0)]),
                         ('pls2@A>cpca2@B>pca3@A>cpca1@B>readA>readB', [W(PLS, 2, 0), W(CPCA, 2, 1), W(PCA, 3, 0), W(CPCA, 1, 1), R(PCA, 0), R(CPCA, 1)])):
